@@ -18,6 +18,7 @@ const (
 	PairBitFlip     = "b=a^bit"
 	PairNeg         = "b=-a"
 	PairInv         = "b=1/a"
+	PairMontNear    = "b~ = a~ with a small limb-level edit (Montgomery domain)"
 	PairEqual       = "b=a"
 )
 
@@ -48,7 +49,7 @@ func Pair(t *rapid.T, m *big.Int, label string) (a, b *big.Int, kind string) {
 	a = Int256(t, m, label+"_a")
 	kind = Sampled([]string{
 		PairIndependent, PairIndependent, PairSumWindow, PairNear, PairProdWindow,
-		PairSquareWin, PairBitFlip, PairNeg, PairInv, PairEqual,
+		PairSquareWin, PairBitFlip, PairNeg, PairInv, PairEqual, PairMontNear, PairMontNear,
 	}).Draw(t, label+"_kind")
 	am := ref.ToM(a, m)
 	switch kind {
@@ -99,6 +100,38 @@ func Pair(t *rapid.T, m *big.Int, label string) (a, b *big.Int, kind string) {
 		bit := rapid.IntRange(0, 255).Draw(t, label+"_bit")
 		b = new(big.Int).Xor(a, new(big.Int).Lsh(one, uint(bit)))
 		b.Mod(b, m)
+	case PairMontNear:
+		// b's internal (Montgomery) limbs are a's with a small edit: one bit flipped, one limb replaced, a
+		// limb xor-ed with a subset of its neighbour's bits, two limbs swapped.  These are the unequal pairs a
+		// limb-wise comparison that drops, repeats or mis-combines a limb calls equal.
+		la := ref.Limbs(am)
+		for try := 0; try < 8; try++ {
+			lb := la
+			i := rapid.IntRange(0, 3).Draw(t, label+"_mlimb")
+			switch Sampled([]string{"bit", "bit", "limb", "subset-of-neighbour", "swap", "two-bits"}).Draw(t, label+"_medit") {
+			case "bit":
+				lb[i] ^= 1 << uint(rapid.IntRange(0, 63).Draw(t, label+"_mbit"))
+			case "two-bits":
+				lb[i] ^= 1 << uint(rapid.IntRange(0, 63).Draw(t, label+"_mbit"))
+				lb[rapid.IntRange(0, 3).Draw(t, label+"_mlimb2")] ^= 1 << uint(rapid.IntRange(0, 63).Draw(t, label+"_mbit2"))
+			case "limb":
+				lb[i] = rapid.Uint64().Draw(t, label+"_mval")
+			case "subset-of-neighbour":
+				lb[i] ^= la[i^1] & rapid.Uint64().Draw(t, label+"_mmask")
+			case "swap":
+				j := rapid.IntRange(0, 3).Draw(t, label+"_mlimb2")
+				lb[i], lb[j] = lb[j], lb[i]
+			}
+			if bm := ref.FromLimbs(lb); bm.Cmp(m) < 0 && bm.Cmp(am) != 0 {
+				b = ref.FromM(bm, m)
+				break
+			}
+		}
+		if b == nil {
+			kind = PairBitFlip
+			b = new(big.Int).Xor(a, one)
+			b.Mod(b, m)
+		}
 	case PairNeg:
 		b = ref.NegM(a, m)
 	case PairInv:
